@@ -39,6 +39,10 @@ pub struct Config {
     pub chains: BTreeMap<u64, String>,
     /// R9: the function returns `impl Iterator<Item = T>`; print it as returning `Vec<T>` and collect the tail expression
     pub iter_to_vec: bool,
+    /// type ascriptions added to un-annotated `let NAME = ..` bindings (first binding of that name), checked by rustc
+    pub let_types: Vec<(String, String)>,
+    /// R9: functions (by name) that return Vec after R9; `f(..).collect()` on them is the identity and is dropped
+    pub vec_fns: Vec<String>,
     /// method renames `name` -> `new_name` (receiver-independent, checked by rustc in Verus)
     pub method_rename: BTreeMap<String, String>,
     /// method calls turned into free function calls: `x.name(args)` -> `new_name(x, args)`
@@ -106,6 +110,7 @@ impl Config {
             }
             c.add_derives.extend(strs(&src["add_derives"]));
             c.const_calls.extend(strs(&src["const_calls"]));
+            c.vec_fns.extend(strs(&src["vec_fns"]));
             c.strip_lifetimes.extend(strs(&src["strip_lifetimes"]));
             c.keep_derives.extend(strs(&src["keep_derives"]));
         }
@@ -146,6 +151,11 @@ impl Config {
             }
         }
         c.iter_to_vec = item["iter_to_vec"].as_bool().unwrap_or(false);
+        if let Some(m) = item["let_types"].as_object() {
+            for (k, v) in m {
+                c.let_types.push((k.clone(), v.as_str().unwrap_or("").to_string()));
+            }
+        }
         for k in item["any_to_loop"].as_array().cloned().unwrap_or_default() {
             c.any_to_loop.insert(k.as_u64().ok_or("any_to_loop: bad ordinal")?);
         }
@@ -645,6 +655,18 @@ impl<'a> VisitMut for MethodRenamePass<'a> {
     fn visit_expr_mut(&mut self, e: &mut syn::Expr) {
         visit_mut::visit_expr_mut(self, e);
         if let syn::Expr::MethodCall(mc) = e {
+            if mc.method == "collect" && mc.args.is_empty() {
+                if let Some(n) = callee_name(&mc.receiver) {
+                    if self.cfg.vec_fns.iter().any(|f| *f == n) {
+                        let recv = (*mc.receiver).clone();
+                        *e = recv;
+                        bump(self.counts, "R9.drop_collect");
+                        return;
+                    }
+                }
+            }
+        }
+        if let syn::Expr::MethodCall(mc) = e {
             if let Some(n) = self.cfg.method_to_fn.get(&mc.method.to_string()) {
                 let f = syn::Ident::new(n, Span::call_site());
                 let recv = &mc.receiver;
@@ -662,6 +684,71 @@ impl<'a> VisitMut for MethodRenamePass<'a> {
         }
         visit_mut::visit_expr_method_call_mut(self, mc);
     }
+}
+
+// ------------------------------------------------------------------------------------------
+// let type ascriptions
+// ------------------------------------------------------------------------------------------
+
+struct LetTypePass<'a> {
+    name: &'a str,
+    ty: syn::Type,
+    done: bool,
+}
+
+impl<'a> VisitMut for LetTypePass<'a> {
+    fn visit_local_mut(&mut self, l: &mut syn::Local) {
+        if !self.done {
+            if let syn::Pat::Ident(pi) = &l.pat {
+                if pi.ident == self.name {
+                    let pat = l.pat.clone();
+                    let ty = self.ty.clone();
+                    l.pat = syn::Pat::Type(syn::PatType { attrs: vec![], pat: Box::new(pat), colon_token: Default::default(), ty: Box::new(ty) });
+                    self.done = true;
+                }
+            }
+        }
+        visit_mut::visit_local_mut(self, l);
+    }
+    fn visit_macro_mut(&mut self, _m: &mut syn::Macro) {}
+}
+
+// ------------------------------------------------------------------------------------------
+// R16 : reference patterns without bindings (`&CodegenMode::Cli`) -> plain patterns (default binding modes)
+// ------------------------------------------------------------------------------------------
+
+struct RefPatPass<'a> {
+    counts: &'a mut Counts,
+}
+
+fn pat_has_binding(p: &syn::Pat) -> bool {
+    struct V(bool);
+    impl<'ast> syn::visit::Visit<'ast> for V {
+        fn visit_pat_ident(&mut self, pi: &'ast syn::PatIdent) {
+            // a unit-like path pattern parses as PatIdent only for single lowercase-able idents; treat uppercase-initial as a path
+            let s = pi.ident.to_string();
+            if s.chars().next().map(|c| c.is_lowercase() || c == '_').unwrap_or(true) {
+                self.0 = true;
+            }
+        }
+    }
+    let mut v = V(false);
+    syn::visit::Visit::visit_pat(&mut v, p);
+    v.0
+}
+
+impl<'a> VisitMut for RefPatPass<'a> {
+    fn visit_pat_mut(&mut self, p: &mut syn::Pat) {
+        if let syn::Pat::Reference(r) = p {
+            if r.mutability.is_none() && !pat_has_binding(&r.pat) {
+                let inner = (*r.pat).clone();
+                *p = inner;
+                bump(self.counts, "R16.ref_pattern");
+            }
+        }
+        visit_mut::visit_pat_mut(self, p);
+    }
+    fn visit_macro_mut(&mut self, _m: &mut syn::Macro) {}
 }
 
 // ------------------------------------------------------------------------------------------
@@ -701,6 +788,7 @@ struct ShadowPass {
     from: String,
     to: String,
     active: bool,
+    done: bool,
     n: u64,
 }
 
@@ -713,6 +801,20 @@ impl VisitMut for ShadowPass {
                     self.visit_expr_mut(&mut init.expr);
                 }
                 let mut hit = false;
+                // a later `let` of the same name shadows again: the renamed binding is no longer visible
+                let rebinding = match &l.pat {
+                    syn::Pat::Ident(pi) => pi.ident == self.from,
+                    syn::Pat::Type(pt) => matches!(&*pt.pat, syn::Pat::Ident(pi) if pi.ident == self.from),
+                    _ => false,
+                };
+                if rebinding && self.active {
+                    self.active = false;
+                    self.done = true;
+                    continue;
+                }
+                if self.done {
+                    continue;
+                }
                 if let syn::Pat::Ident(pi) = &mut l.pat {
                     if pi.ident == self.from && !self.active {
                         pi.ident = syn::Ident::new(&self.to, Span::call_site());
@@ -1541,37 +1643,6 @@ pub fn apply_to_fn(
             return Err(e);
         }
     }
-    // R15
-    for (from, to) in &cfg.rename_shadow {
-        let mut p = ShadowPass { from: from.clone(), to: to.clone(), active: false, n: 0 };
-        p.visit_block_mut(&mut f.block);
-        if p.n == 0 {
-            return Err(format!("lost anchor: no shadowing `let {}` to rename", from));
-        }
-        bump(counts, "R15.rename_shadow");
-    }
-    // R12
-    if !cfg.const_calls.is_empty() {
-        let mut p = ConstCallPass { cfg, counts };
-        p.visit_block_mut(&mut f.block);
-    }
-    // R8 generics
-    drop_generics_sig(&mut f.sig.generics, &cfg.drop_generics, counts);
-    // R7/R13 typemap
-    {
-        let mut p = TypeMapPass { cfg, counts };
-        p.visit_item_fn_mut(f);
-    }
-    // R5
-    if cfg.strings {
-        let mut p = StringPass { counts };
-        p.visit_item_fn_mut(f);
-    }
-    // method renames
-    if !cfg.method_rename.is_empty() || !cfg.method_to_fn.is_empty() {
-        let mut p = MethodRenamePass { cfg, counts };
-        p.visit_item_fn_mut(f);
-    }
     // R9
     if cfg.iter_to_vec {
         let item_ty: Option<syn::Type> = match &f.sig.output {
@@ -1608,6 +1679,51 @@ pub fn apply_to_fn(
             _ => return Err("unsupported construct: iter_to_vec needs a tail expression".into()),
         }
         bump(counts, "R9.iter_to_vec");
+    }
+    // R15
+    for (from, to) in &cfg.rename_shadow {
+        let mut p = ShadowPass { from: from.clone(), to: to.clone(), active: false, done: false, n: 0 };
+        p.visit_block_mut(&mut f.block);
+        if p.n == 0 {
+            return Err(format!("lost anchor: no shadowing `let {}` to rename", from));
+        }
+        bump(counts, "R15.rename_shadow");
+    }
+    for (name, ty) in &cfg.let_types {
+        let t: syn::Type = syn::parse_str(ty).map_err(|e| format!("bad recipe: let_types: {}", e))?;
+        let mut p = LetTypePass { name, ty: t, done: false };
+        p.visit_block_mut(&mut f.block);
+        if !p.done {
+            return Err(format!("lost anchor: no un-annotated `let {}` to ascribe a type to", name));
+        }
+        bump(counts, "R17.let_type");
+    }
+    // R16
+    {
+        let mut p = RefPatPass { counts };
+        p.visit_block_mut(&mut f.block);
+    }
+    // R12
+    if !cfg.const_calls.is_empty() {
+        let mut p = ConstCallPass { cfg, counts };
+        p.visit_block_mut(&mut f.block);
+    }
+    // R8 generics
+    drop_generics_sig(&mut f.sig.generics, &cfg.drop_generics, counts);
+    // R7/R13 typemap
+    {
+        let mut p = TypeMapPass { cfg, counts };
+        p.visit_item_fn_mut(f);
+    }
+    // R5
+    if cfg.strings {
+        let mut p = StringPass { counts };
+        p.visit_item_fn_mut(f);
+    }
+    // method renames
+    if !cfg.method_rename.is_empty() || !cfg.method_to_fn.is_empty() || !cfg.vec_fns.is_empty() {
+        let mut p = MethodRenamePass { cfg, counts };
+        p.visit_item_fn_mut(f);
     }
     // ghost threading
     if let Some(gp) = &cfg.ghost_params {
@@ -1737,6 +1853,17 @@ fn rewrite_attrs(attrs: &mut Vec<syn::Attribute>, cfg: &Config, counts: &mut Cou
 
 pub fn apply_to_item_and_print(mut it: syn::Item, cfg: &Config, counts: &mut Counts) -> Result<String, String> {
     let publ: syn::Visibility = syn::parse_quote!(pub);
+    if let Some(n) = &cfg.rename_fn {
+        let id = syn::Ident::new(n, Span::call_site());
+        match &mut it {
+            syn::Item::Struct(s) => s.ident = id,
+            syn::Item::Enum(s) => s.ident = id,
+            syn::Item::Const(s) => s.ident = id,
+            syn::Item::Type(s) => s.ident = id,
+            _ => {}
+        }
+        bump(counts, "R7.rename_item");
+    }
     match &mut it {
         syn::Item::Struct(s) => {
             rewrite_attrs(&mut s.attrs, cfg, counts);
